@@ -348,7 +348,7 @@ ComparePhys(A, B) ==
       numeric == SetIf(numOK /\ tensBad # {}, P \o ".tension")
                  \cup SetIf(numOK /\ Len(A.e.pres) > 0 /\ Len(A.e.pres) = Len(B.e.pres) /\ presBad # {}, P \o ".pressure")
       structural == SetIf(A.e.internal # B.e.internal, P \o ".internal_set")
-                    \cup SetIf(A.e.junctions # B.e.junctions /\ ~contaminated, P \o ".equation_set")
+                    \cup SetIf(A.e.junctions # B.e.junctions /\ (kind = "relabel" \/ ~contaminated), P \o ".equation_set")
                     \cup SetIf(Len(A.e.pres) # Len(B.e.pres), P \o ".pressure_missing")
       coefF == SetIf(A.e.junctions = B.e.junctions /\ coefBad # {}, P \o ".coefficients")
   IN [fails |-> structural \cup (IF kfName = "" THEN numeric \cup coefF ELSE {}),
